@@ -25,6 +25,7 @@ import (
 	"bytes"
 	"context"
 	"encoding/hex"
+	"encoding/json"
 	"fmt"
 	"math/big"
 	"net/http"
@@ -55,7 +56,7 @@ func init() {
 			"each evaluated 8x sequentially and by 8 goroutines sharing the inputs; " +
 			"cq (round 4): XPath selectors from the engine's feature set (axes, positional/comparison predicates, every string function with node-set and literal arguments, count/sum/position/last, not/and/or, unions, attributes, text()) and JSONPath (filters, slices, recursive descent, wildcards, scripts) over generated feeds of 3..400 items: one sequential reference, then G=2..16 goroutines released on a barrier x N=4..16 evaluations through dataParse and genQueryResult (same selector / two selectors on one document / one selector on two documents / JSON and XML together), every result compared with the reference after all finished; " +
 			"subm (explicit unsorted member lists with duplicates, 1..300 members), grp (LogGrouping / dissolve histories through the real handleGrouping and pdkg group table, then choseSubmitter), path (content stage -> genSign -> recoverSign -> reportQueryResult for the three kinds); " +
-			"round 5: pm (n = 1..7 real DosNodes with queryLoop, real choseSubmitter -> content stage -> genSign -> dispatchSign -> recoverSign -> reportQueryResult, the data source serving members differently: other document / selector error / cut connection / cut body / over-long body at the submitter only, at one non-submitter, at n-t and n-t+1 members), fetch (dataFetch at 16 MiB - 1, 16 MiB, 16 MiB + 1, cut transfers), depth (JSON arrays / objects / brackets inside a string and XML elements nested 1, 2, 999, 1000, 1001, 1002, 5000 deep through dataParse), grpk (member list of every member after a COMPLETED key generation of 3..4 real pdkg), evs (event sequences through the real onchainLoop -> groupInfo -> handleQuery of one member of a 1..300 member group, request events directly followed by commit-reveal / other events; event objects compared with the emitted values afterwards); " +
+			"round 5: pm (n = 1..7 real DosNodes with queryLoop, real choseSubmitter -> content stage -> genSign -> dispatchSign -> recoverSign -> reportQueryResult, the data source serving members differently: other document / selector error / cut connection / cut body / over-long body at the submitter only, at one non-submitter, at n-t and n-t+1 members), fetch (dataFetch at 16 MiB - 1, 16 MiB, 16 MiB + 1, cut transfers), depth (JSON arrays / objects / brackets inside a string and XML elements nested 1, 2, 999, 1000, 1001, 1002, 5000 deep through dataParse), grpk (member list of every member after a COMPLETED key generation of 3..4 real pdkg), grpd (announce / key generation completed or not / LogGroupDissolve through the real onchainLoop / re-announce in another order / request event, on 3..4 real DosNodes around real pdkg), evs (event sequences through the real onchainLoop -> groupInfo -> handleQuery of one member of a 1..300 member group, request events directly followed by commit-reveal / other events; event objects compared with the emitted values afterwards); " +
 			"non-trivial = anything but a 32-byte lastRand without leading zero / an empty selector; distinct = distinct case line",
 		Gen:  gen,
 		Exec: exec,
@@ -496,6 +497,9 @@ func exec(line string) (res h.Result) {
 		if got != parsed {
 			o2 = fmt.Sprintf("nondeterministic: dataParse gives %.60s now, gave %.60s when the case was generated", got, parsed)
 		}
+		if strings.HasPrefix(sel, "$") && ge.tag == "" && o2 == "" {
+			o2 = jsonArrayShape(ge.copy)
+		}
 		res.Class = "query " + kind + " " + map[bool]string{true: "value", false: parsed}[parsed != "err" && parsed != "panic"]
 		res.Nontrivial = sel != ""
 		switch got {
@@ -530,6 +534,8 @@ func exec(line string) (res h.Result) {
 		return execGrpK(w)
 	case "depth":
 		return execDepth(w)
+	case "grpd":
+		return execGrpD(w)
 	case "evs":
 		return execEvs(w)
 	case "fetch":
@@ -542,6 +548,25 @@ func exec(line string) (res h.Result) {
 		panic("bad case line")
 	}
 	return
+}
+
+// jsonArrayShape: the result of a `$` selector is json.Marshal of the LIST of selected values: one
+// JSON array, its elements separated by single commas, nothing around it (encoding/json of the standard
+// library decodes it; the elements re-joined give the result back byte for byte). The driver cuts the
+// recorded result at the same commas and re-assembles it with the model's jsonAssemble.
+func jsonArrayShape(b []byte) string {
+	var els []json.RawMessage
+	if err := json.Unmarshal(b, &els); err != nil || els == nil {
+		return fmt.Sprintf("json-assembly: the result of a JSONPath selector is not a JSON array: %.80s", b)
+	}
+	parts := make([][]byte, len(els))
+	for i, e := range els {
+		parts[i] = e
+	}
+	if again := append(append([]byte("["), bytes.Join(parts, []byte(","))...), ']'); !bytes.Equal(again, b) {
+		return fmt.Sprintf("json-assembly: the result is not '[' + the selected values separated by ',' + ']': %.80s", b)
+	}
+	return ""
 }
 
 func cmpClass(a, b int) string {
@@ -749,6 +774,7 @@ func gen(tier string, rng *h.Rng, emit func(string)) {
 	genFetch(tier, rng, emit)
 	// round 5: the member list after a COMPLETED key generation (groupk.go)
 	genGrpK(tier, rng, emit)
+	genGrpD(tier, rng, emit)
 	// round 5: the nesting bound of dataParse at 1000 / 1001 levels (depth.go)
 	genDepth(tier, rng, emit)
 	// round 5: event sequences through the real onchainLoop of one member (events.go)
